@@ -386,6 +386,14 @@ func propStop(c StopCase) (o pbt.Outcome) {
 		time.Sleep(60 * time.Millisecond)
 	}
 	// the action, possibly repeated concurrently
+	graceCh := make(chan time.Duration, 1)
+	go func() {
+		t := time.Now()
+		for i := 0; i < 1000; i++ {
+			time.Sleep(time.Millisecond)
+		}
+		graceCh <- time.Since(t)
+	}()
 	issued := time.Now()
 	var durations []time.Duration
 	var dmu sync.Mutex
@@ -437,10 +445,21 @@ func propStop(c StopCase) (o pbt.Outcome) {
 	// sessions a Stop may then need n seconds (plus slack), so it accounts for
 	// a verdict at the 10 s bound only when there are enough sessions, and
 	// only if everything is over within n*2 s + 5 s.
-	explainable := graceApplies && time.Duration(len(c.Sessions))*time.Second+2*time.Second >= bound
-	budget := time.Duration(len(c.Sessions))*2*time.Second + 5*time.Second
+	// "One second" is a loop of 1000 one-millisecond sleeps in mieru, which
+	// stretches on a loaded machine; the same loop, started together with the
+	// action (graceCh), measures what it costs here and now.
+	var perSession time.Duration
+	explain := func() (explainable bool, budget time.Duration) {
+		if perSession == 0 {
+			// measured on this host: a Stop costs about 1.25 grace loops per
+			// session; 1.5 loops + 0.5 s leaves room for what else stretches
+			perSession = (<-graceCh)*3/2 + 500*time.Millisecond
+		}
+		n := time.Duration(len(c.Sessions))
+		return graceApplies && n*perSession+2*time.Second >= bound, n*2*perSession + 5*time.Second
+	}
 	tcpStop := func(sig string) string {
-		if explainable && c.Action >= 2 {
+		if explainable, _ := explain(); explainable && c.Action >= 2 {
 			return "stop-one-second-per-session"
 		}
 		return sig
@@ -457,7 +476,7 @@ func propStop(c StopCase) (o pbt.Outcome) {
 			select {
 			case <-actionDone:
 				sig = tcpStop(sig)
-			case <-time.After(time.Until(issued.Add(budget))):
+			case <-time.After(time.Until(issued.Add(func() time.Duration { _, b := explain(); return b }()))):
 				sig += "/beyond-one-second-per-session"
 			}
 		}
@@ -473,6 +492,13 @@ func propStop(c StopCase) (o pbt.Outcome) {
 		}
 		return
 	}
+	var maxAction time.Duration
+	for _, d := range durations {
+		if d > maxAction {
+			maxAction = d
+		}
+	}
+	o.Obs = map[string]any{"actionMs": maxAction.Milliseconds()}
 	for _, d := range durations {
 		if d > bound {
 			o.Failf(tcpStop("slow"), "%s took %v", actionName, d)
@@ -492,7 +518,7 @@ func propStop(c StopCase) (o pbt.Outcome) {
 				select {
 				case <-w.done:
 					sig = tcpStop(sig)
-				case <-time.After(time.Until(issued.Add(budget))):
+				case <-time.After(time.Until(issued.Add(func() time.Duration { _, b := explain(); return b }()))):
 					sig += "/beyond-one-second-per-session"
 				}
 			}
@@ -509,7 +535,7 @@ func propStop(c StopCase) (o pbt.Outcome) {
 	case <-stopDone:
 	case <-time.After(bound):
 		sigFinal := "slow/final-stop"
-		if explainable {
+		if explainable, budget := explain(); explainable {
 			select {
 			case <-stopDone:
 				sigFinal = "stop-one-second-per-session"
@@ -694,6 +720,11 @@ func propDeadline(c DeadlineCase) (o pbt.Outcome) {
 			sig := fmt.Sprintf("deadline/%s/call-%d", strings.ToLower(op), min(call, 2))
 			if !c.Write && c.WriteFirst && call == 1 {
 				sig = "deadline/read/after-write"
+			}
+			if c.Write && !c.UDP {
+				// TCP: the output loop sits in the stalled conn.Write holding the
+				// lock that Write needs (root cause shared with F-C15-8)
+				sig = "deadline/write/tcp-underlay-write-stalled"
 			}
 			o.Failf(sig, "%s side: %s #%d after Set%sDeadline(now%+dms) is still blocked %v after the deadline (udp=%v writeFirst=%v)", side, op, call, map[bool]string{true: "", false: op}[c.UseBoth], c.DeadlineMs, slack, c.UDP, c.WriteFirst)
 			pn.SetBlackhole(false)
